@@ -5,6 +5,7 @@ package ecs
 func init() {
 	vRegister("HC01_Step", HC01_Step)
 	vRegister("HC01_Two", HC01_Two)
+	vRegister("HC01_TwoSmall", HC01_TwoSmall)
 	vRegister("HC01_Probe", HC01_Probe)
 	vRegister("HConf_Prefixes", HConf_Prefixes)
 }
@@ -269,6 +270,20 @@ func HC01_Two() {
 	x.check()
 	x.inv()
 	x.checkQueries(false)
+	vReach("end")
+}
+
+// HC01_TwoSmall: two operations in a row with a reduced argument range, every prefix (quick tier).
+func HC01_TwoSmall() {
+	x := hNew(0, 6, 1+vChoice("capinc", 1+vTier()), 1)
+	x.prefix(vChoice("prefix", hNPrefix))
+	ops := [6]int{0, 1, 2, 8, 9, 4}
+	x.legalStepSmall(ops[vChoice("op1", 6)])
+	x.inv()
+	x.legalStepSmall(ops[vChoice("op2", 6)])
+	x.check()
+	x.inv()
+	x.checkQueries(true)
 	vReach("end")
 }
 
